@@ -1254,6 +1254,7 @@ func Calls__(xs []string, buf *bytes.Buffer, ctx context.Context, ch chan os.Sig
 	go time.Sleep(time.Duration(len(xs)))
 }
 `},
+	{Name: "odd_directives", Solo: true, Targets: []string{"odd:degenerate-lint-directives"}, Src: degenerateDirectives},
 }
 
 // directed programs for the comparison-operator switches of nilness: one per operator, the right operand being the
@@ -1278,3 +1279,20 @@ func Cmp__[T ~int | ~string](x T, p *int) *int {
 	}
 	return out
 }
+
+// Comments that look like linter directives but are degenerate. Only forms that the linter accepts silently are
+// listed (a malformed //lint:ignore legitimately yields a "malformed linter directive" problem, which is the user's
+// error and not part of this corpus). lint.ParseDirectives sees every one of them: in the directives analyzer and in
+// the runner itself, outside any analyzer.
+var degenerateDirectives = "\n" +
+	"//lint:\nvar v0__ = 0\n\n" +
+	"//lint: \nvar v1__ = 1\n\n" +
+	"//lint:\t\nvar v2__ = 2\n\n" +
+	"//lint:  \t \nvar v3__ = 3\n\n" +
+	"//lint:unknown x y\nvar v4__ = 4\n\n" +
+	"//lint:ignore  SA1000  two  spaces\nvar v5__ = 5\n\n" +
+	"// lint:ignore\nvar v6__ = 6\n\n" +
+	"/*lint:ignore SA1000 x*/\nvar v7__ = 7\n\n" +
+	"//lint:x\nvar v8__ = 8\n\n" +
+	"//lint:ignore\tSA1000\treason\nvar v9__ = 9\n\n" +
+	"// Dirs__ has directive-like comments in a body.\nfunc Dirs__(p *int) *int {\n\t//lint:\n\tif p == nil { //lint: \n\t\treturn nil\n\t}\n\t/*lint:*/ _ = v0__ + v1__ + v2__ + v3__ + v4__ + v5__ + v6__ + v7__ + v8__ + v9__\n\treturn p //lint:\t\n}\n\n//lint:\n"
